@@ -138,15 +138,35 @@ def _rest(ctx, repo, cg):
             break
         crit_fn = tgt
         crit_body = [x for x in tgt.body if not (isinstance(x, ast.Expr) and isinstance(x.value, ast.Constant))]
+    def private_callees(node):
+        return [pm.defs[c.func.id] for c in ast.walk(node) if isinstance(c, ast.Call) and isinstance(c.func, ast.Name)
+                and c.func.id.startswith('_') and isinstance(pm.defs.get(c.func.id), ast.FunctionDef)]
+
+    def stores_t(node, depth=0):
+        """registry stores made by the node itself or, transitively, by the private helpers of the module it calls"""
+        out = list(stores_in(node))
+        if depth < 2:
+            for g in private_callees(node):
+                out += stores_t(g, depth + 1)
+        return out
+
+    def raisers_t(node, depth=0):
+        """names of the exception classes raised by the node itself or by the private helpers it calls"""
+        out = [norm(r.exc.func) if isinstance(r.exc, ast.Call) else norm(r.exc) for r in ast.walk(node)
+               if isinstance(r, ast.Raise) and r.exc is not None]
+        if depth < 2:
+            for g in private_callees(node):
+                out += raisers_t(g, depth + 1)
+        return out
     helpers = []
     for c in [x for st_ in crit_body for x in ast.walk(st_)]:
         if isinstance(c, ast.Call) and isinstance(c.func, ast.Name) and isinstance(pm.defs.get(c.func.id), ast.FunctionDef) \
-                and c.func.id not in helpers and stores_in(pm.defs[c.func.id]):
+                and c.func.id not in helpers and stores_t(pm.defs[c.func.id]):
             helpers.append(c.func.id)
     role_of = {}
     for name in helpers:
         fn = pm.defs[name]
-        st = stores_in(fn)
+        st = stores_t(fn)
         if any('blacklist' in x for x in st) or any('blacklist' in norm(a.value) for a in ast.walk(fn) if isinstance(a, ast.Assign)):
             role_of[name] = 'registration[skip-list]'
         elif any(isinstance(x, ast.For) for x in walk_shallow(fn)):
@@ -158,14 +178,28 @@ def _rest(ctx, repo, cg):
     for name in helpers:
         fn = pm.defs.get(name)
         raises = [r for r in walk_shallow(fn) if isinstance(r, ast.Raise)]
-        summaries[name] = (bool(stores_in(fn)), bool(raises))
+        summaries[name] = (bool(stores_t(fn)), bool(raisers_t(fn)))
         bad = []
-        Flow(lambda node: ['store'] if (isinstance(node, ast.stmt) and stores_in(node)) else [], mode='may',
+        indirect = {}       # statement calling a private helper that can raise -> (exception names, store may precede)
+
+        def on_stmt(node, s_):
+            if isinstance(node, (ast.Expr, ast.Assign, ast.AugAssign, ast.Return)):
+                ex = [x for g in private_callees(node) for x in raisers_t(g)]
+                if ex:
+                    prev = indirect.get(id(node), (node, ex, False))
+                    indirect[id(node)] = (node, ex, prev[2] or 'store' in s_)
+        Flow(lambda node: ['store'] if (isinstance(node, ast.stmt) and not isinstance(node, (ast.For, ast.While, ast.If, ast.With, ast.Try))
+                                       and stores_t(node)) else [], mode='may', on_stmt=on_stmt,
              on_exit=lambda node, kind, s: bad.append(node) if (kind == 'raise' and 'store' in s) else None).run(fn)
         for r in raises:
             ctx.ob('C06.R3', f'{role_of[name]}:raise-after-store:{norm(r.exc.func) if isinstance(r.exc, ast.Call) else norm(r.exc)}',
                    pm.where(r), f'no registry store can precede this raise inside {name}', r not in bad,
                    'a store into the registry (earlier loop iteration) may already have happened when this raises')
+        for node, ex, after_store in indirect.values():
+            for e_ in sorted(set(ex)):
+                ctx.ob('C06.R3', f'{role_of[name]}:raise-after-store:{e_}', pm.where(node),
+                       f'no registry store can precede the raise reached through `{norm(node)[:60]}` inside {name}', not after_store,
+                       'a store into the registry (earlier loop iteration) may already have happened when the helper raises')
     # sibling callees in the critical section
     seq = [c for st_ in crit_body for c in ast.walk(st_) if isinstance(c, ast.Call) and dotted(c.func) in summaries]
     seq.sort(key=lambda c: c.lineno)
@@ -271,15 +305,14 @@ def _rest(ctx, repo, cg):
            k == 0 or j >= 1, f'stored: make_conf_hookable applied {k}×; compared with `{norm(cmp_[0].comparators[0])}` '
            f'normalised {j}×: for any configuration without an explicit warning class the comparison is false and '
            f'nothing is restored')
-    # normaliser idempotence (structural)
-    mk = repo.mod('beartype.claw._package._clawpkgmake').defs.get('make_conf_hookable')
+    # normaliser idempotence: make_conf_hookable interpreted for both values of the "user set the warning class" flag
+    # (shared with C05.R6): a configuration with an explicit class is returned as is (so normalising twice is
+    # normalising once), any other is rebuilt with the hook's warning class
+    from .c05 import _hookable
+    pmm = repo.mod('beartype.claw._package._clawpkgmake')
+    mk = pmm.defs.get('make_conf_hookable')
     ctx.require(mk is not None, 'anchor vanished: make_conf_hookable')
-    guard = [i for i in walk_shallow(mk) if isinstance(i, ast.If) and '_is_warning_cls_on_decorator_exception_set' in norm(i.test)]
-    ok = bool(guard) and norm(guard[0].test).startswith('not ') and any(
-        "'warning_cls_on_decorator_exception'" in norm(x) for x in ast.walk(guard[0]))
-    ctx.ob('C06.R4', 'make_conf_hookable:idempotent', repo.mod('beartype.claw._package._clawpkgmake').where(mk),
-           'the normaliser is the identity on configurations with an explicit warning class and produces such a '
-           'configuration otherwise', ok, '')
+    _hookable(ctx, pmm, mk, 'C06.R4')
 
     _r5(ctx, repo)
 
@@ -733,11 +766,24 @@ def _registration(ctx, repo, cg):
         F.builtin_hook = prev_b
     rm = tm.defs.get('remove_beartype_pathhook_unless_packages_trie')
     ctx.require(rm is not None, 'anchor vanished: remove_beartype_pathhook_unless_packages_trie')
-    ifs = [i for i in walk_shallow(rm) if isinstance(i, ast.If)]
-    ok = len(ifs) == 1 and norm(ifs[0].test) == 'not is_packages_trie()' and not ifs[0].orelse and \
-        [norm(x) for x in ifs[0].body] == ['remove_beartype_path_hook()']
-    ctx.ob('C06.R7', 'remove-path-hook-only-when-registry-empty', tm.where(rm),
-           'the path hook is removed only when is_packages_trie() is false', ok, f'{[norm(i.test) for i in ifs]}')
+    rmv = F.const('beartype.claw._package.clawpkgtrie', 'remove_beartype_pathhook_unless_packages_trie')
+    saved_st = dict(F.stubs)
+    removed = []
+    try:
+        for registered in (True, False):
+            del removed[:]
+            F.stubs['beartype.claw._package.clawpkgtrie.is_packages_trie'] = lambda e, a, k, r=registered: r
+            F.stubs['beartype.claw._importlib.clawimpmain.remove_beartype_path_hook'] = lambda e, a, k: removed.append(1)
+            try:
+                _call_function(F, rmv, [], {}, 1)
+            except (_Abort, _Raise) as ex:
+                ctx.require(False, f'cannot interpret {rmv.qual}: {ex}')
+            ctx.ob('C06.R7', f'remove-path-hook-only-when-registry-empty:registered={registered}', tm.where(rm),
+                   'the path hook is removed exactly when nothing is registered any more',
+                   len(removed) == (0 if registered else 1), f'remove_beartype_path_hook() called {len(removed)} time(s)')
+    finally:
+        F.stubs.clear()
+        F.stubs.update(saved_st)
 
     # ---- R8 ----------------------------------------------------------------------
     ctx.rule('C06.R8', 'who may register: every public hook (beartype_all, beartype_package(s), beartype_this_package, '
